@@ -33,7 +33,7 @@ MIRRORED = [('mitxgraders/sampling.py', 'RealInterval'), ('mitxgraders/sampling.
             ('mitxgraders/matrixsampling.py', 'IdentityMatrixMultiples'), ('mitxgraders/matrixsampling.py', 'SquareMatrices'),
             ('mitxgraders/helpers/validatorfuncs.py', 'NumberRange'),
             ('mitxgraders/helpers/validatorfuncs.py', 'is_shape_specification')]
-REFUTED = ['C12_random_function_bound_refuted', 'C12_random_function_real_sine_bound_refuted']
+REFUTED = []
 TRUSTED = [
     'translator translate/sampler.py (Python ast -> Gallina: interval swap and formulas, randint arguments, RandomFunction '
     'coefficient formulas, SquareMatrices.__init__ decision tree, apply_symmetry / triangular steps)',
@@ -51,8 +51,8 @@ ASSUMPTIONS = ['PRNG contracts: random_sample/rand in [0,1), randint(low, high) 
 LEVEL_TEXT = ('Theorems for all parameters, all dimensions and all oracle answers within their contracts: real/integer intervals (any order of '
               'endpoints, degenerate, every point / integer attainable), complex rectangles and sectors (np.exp as a unit-modulus oracle, and the '
               'genuine cos/sin over R), discrete sets and function lists (only listed members, each attainable), random functions (arity, '
-              'output dimension, realness, |f - center| <= amplitude*input_dim, hence the declared bound for unary functions; the declared '
-              'bound is REFUTED for input_dim >= 2, with an oracle-sine and a genuine-sine witness), vectors/matrices/tensors (norm, '
+              'output dimension, realness, |f - center| <= amplitude for every input_dim, with np.sin as a bounded oracle and with the '
+              'genuine sine over R), vectors/matrices/tensors (norm, '
               'triangularity, realness), identity multiples, and the whole SquareMatrices pipeline for every dimension and every accepted '
               'option combination: requested symmetry, trace 0, determinant exactly 1, determinant exactly 0 (or below the code\'s own 5e-13 '
               'cut-off when its early return is taken), norm in the declared range, realness, at most 100 passes, the assert and the '
@@ -62,13 +62,13 @@ LEVEL_TEXT = ('Theorems for all parameters, all dimensions and all oracle answer
               'regenerated from the source on every run (Gen/Sampler.v + bridge).')
 LEVEL_NOTE = ('Partial: exact (Gaussian) rational arithmetic with the PRNG and numpy/LAPACK answers (det, n-th root, eigenvalues, norm, sin, exp) '
               'as contract-bound oracles; floating-point linear algebra is observed (residuals checked in Coq on every recorded answer), not '
-              'verified; orthogonal/unitary samplers need scipy (absent). Everything except the four real-analysis statements is closed under '
-              'the global context; those use Coq Reals (sig_forall_dec, sig_not_dec, functional_extensionality_dep, classic).')
+              'verified; orthogonal/unitary samplers need scipy (absent). Everything except the real-analysis statements is closed under '
+              'the global context; the real-analysis statements use Coq Reals (sig_forall_dec, sig_not_dec, '
+              'functional_extensionality_dep). The model follows /repo after fix 857063e (RandomFunction scaling).')
 TECHNIQUE = ('Coq proof (Q / Gaussian rationals with a setoid field, Laplace determinant by induction, Reals for sin/cos) + source-to-Gallina '
              'translator + vm_compute correspondence on recorded oracle answers + exact integer-arithmetic property oracle')
 DESIGN_REF = 'DESIGN.md section 3, C12'
 
-FINDING_HINT = 'RandomFunction.gen_sample'     # call site of the one known defect (see classify_known)
 
 # ------------------------------------------------------------------------------------------------
 # Coq side
@@ -154,7 +154,7 @@ Fixpoint clist_close (eps scale : Q) (a b : list C) : bool :=
 Definition rfcase_ok (c : rfcase) : bool :=
   let expi := lookup_exp (f_exp c) in
   let f := rf_draw expi (f_cplx c) (f_raw c) in
-  let scale := cabs1 (f_center c) + f_amp c * inject_Z (Z.of_nat (f_in c)) in
+  let scale := cabs1 (f_center c) + f_amp c in
   rf_shape_ok (f_out c) (f_terms c) (f_in c) (f_raw c)
   && forallb (fun e => match e with (a, a', v) => qclose_rel eps12 a a' (Qabs a) && qclose_rel eps9 (cnormsq v) 1 0 end) (f_exp c)
   && forallb (fun p =>
@@ -163,9 +163,8 @@ Definition rfcase_ok (c : rfcase) : bool :=
           | None, None => true
           | Some ys, Some obs =>
               clist_close eps9 scale ys obs && Nat.eqb (length ys) (f_out c)
-              && forallb (fun y => Qle_bool (cnormsq (csub y (f_center c)))
-                                            ((f_amp c * inject_Z (Z.of_nat (f_in c))) * (f_amp c * inject_Z (Z.of_nat (f_in c)))
-                                             * (1 + eps9))) ys
+              (* the property on the model's own values: within center +/- amplitude *)
+              && forallb (fun y => Qle_bool (cnormsq (csub y (f_center c))) (f_amp c * f_amp c * (1 + eps9))) ys
           | _, _ => false
           end) (f_points c).
 
@@ -741,7 +740,7 @@ def rf_check_values(cfg, f, xs, val, res, key_extra, forced=None):
     dev = max(abs(complex(v) - complex(cfg['center'])) for v in vals)
     if dev > amp * (1 + 1e-12):
         res.witnesses.append(dict(base, kind='rf-bound', key='rf-bound:%r%s' % (cfg, key_extra), input_dim=cfg['input_dim'],
-                                  amplitude=amp, deviation=dev, call_site='RandomFunction.gen_sample',
+                                  amplitude=amp, deviation=dev,
                                   what='|f(x) - center| = %r exceeds amplitude %r (input_dim=%d, num_terms=%d)'
                                   % (dev, amp, cfg['input_dim'], cfg['num_terms'])))
 
@@ -826,7 +825,8 @@ def run_rf_config(ctx, res, rng, rec, cfg, n_draws, n_points_coq, n_points, term
             metas.append(('rf', repr(cfg), d))
 
 
-# the defect of DESIGN section 5, as a deterministic corpus entry: forced (legal) PRNG answers
+# regression corpus: forced (legal) PRNG answers that left center +/- amplitude before /repo commit 857063e
+# (scaling by num_terms only); they are ordinary cases now and must pass
 RF_CORPUS = [
     dict(cfg=dict(input_dim=2, output_dim=1, num_terms=1, center=0, amplitude=1, complex=False),
          rand=[[0.5, 0.5], [0.5, 0.5], [0.25, 0.25]], point=[3.0, -7.0]),
@@ -1410,16 +1410,8 @@ def run(ctx):
 
 # ------------------------------------------------------------------------------------------------
 def classify_known(w, known):
-    """The one known defect: RandomFunction exceeds center +/- amplitude when input_dim >= 2, and only up to the bound
-    the code does guarantee (amplitude * input_dim).  Anything else about random functions is still reported."""
-    if w.get('kind') != 'rf-bound':
-        return None
-    if not (w.get('input_dim', 1) >= 2 and w.get('deviation', float('inf')) <= w.get('amplitude', 0) * w.get('input_dim', 1) * (1 + 1e-9)):
-        return None
-    for e in known:
-        wit = e.get('witness', {}) if isinstance(e.get('witness'), dict) else {}
-        if wit.get('call_site') == FINDING_HINT or ('random' in e.get('id', '').lower() and 'function' in e.get('id', '').lower()):
-            return e['id']
+    """No defect of C12 is known any more (the RandomFunction scaling was repaired in /repo commit 857063e): every
+    witness, including a recurrence of that one, is reported."""
     return None
 
 
